@@ -41,6 +41,7 @@ type subShape struct {
 	nGo      int
 	sendFn   types.Object // helper closure variable that performs the guarded send, if any
 	sendLit  *ast.FuncLit
+	wrapFns  map[types.Object]bool // closures / extracted helpers that do nothing but deliver (call sendFn or send)
 	mapFn    types.Object // mapSourceToResponse
 	ctxField func(e ast.Expr) bool
 }
@@ -97,6 +98,28 @@ func loadSub(c *core.Ctx) *subShape {
 		}
 		return true
 	})
+	// thin delivery wrappers around the guarded send: `sendError := func(err error) bool { return send(&Result{…}) }`
+	s.wrapFns = map[types.Object]bool{}
+	ast.Inspect(fd.Body, func(n ast.Node) bool {
+		as, ok := n.(*ast.AssignStmt)
+		if !ok {
+			return true
+		}
+		for i, e := range as.Rhs {
+			fl, ok := e.(*ast.FuncLit)
+			if !ok || i >= len(as.Lhs) {
+				continue
+			}
+			o := core.ObjOf(info, as.Lhs[i])
+			if o == nil || o == s.sendFn || o == s.mapFn {
+				continue
+			}
+			if len(s.deliveries(fl)) == 1 && len(fl.Body.List) == 1 {
+				s.wrapFns[o] = true
+			}
+		}
+		return true
+	})
 	for _, st := range fd.Body.List {
 		if g, ok := st.(*ast.GoStmt); ok {
 			s.nGo++
@@ -145,6 +168,9 @@ func (s *subShape) deliveryArg(n ast.Node) (ast.Expr, bool) {
 		}
 	case *ast.CallExpr:
 		if s.sendFn != nil && core.ObjOf(s.info, x.Fun) == s.sendFn && len(x.Args) == 1 {
+			return x.Args[0], true
+		}
+		if o := core.ObjOf(s.info, x.Fun); o != nil && s.wrapFns[o] && len(x.Args) >= 1 {
 			return x.Args[0], true
 		}
 	}
@@ -394,6 +420,49 @@ func c15Loop(c *core.Ctx, r *core.Reporter) {
 			}
 		}
 	}
+	// conjuncts of a && chain, left to right
+	var conjuncts func(e ast.Expr) []ast.Expr
+	conjuncts = func(e ast.Expr) []ast.Expr {
+		e = ast.Unparen(e)
+		if be, ok := e.(*ast.BinaryExpr); ok && be.Op == token.LAND {
+			return append(conjuncts(be.X), conjuncts(be.Y)...)
+		}
+		return []ast.Expr{e}
+	}
+	within := func(outer, inner ast.Node) bool { return outer.Pos() <= inner.Pos() && inner.End() <= outer.End() }
+	if !closedCheck && moreObj != nil {
+		// the other spelling: every delivery of the arm sits behind `more` in an && chain (to its right in the condition, or
+		// in the body of an if whose condition has `more` as a conjunct), and the arm ends in a return
+		all := len(s.deliveries(evArm)) > 0
+		for _, d := range s.deliveries(evArm) {
+			guarded := false
+			ast.Inspect(evArm, func(n ast.Node) bool {
+				iff, ok := n.(*ast.IfStmt)
+				if !ok {
+					return true
+				}
+				cs := conjuncts(iff.Cond)
+				for i, cj := range cs {
+					if id, ok := cj.(*ast.Ident); ok && core.ObjOf(info, id) == moreObj {
+						if within(iff.Body, d) {
+							guarded = true
+						}
+						for _, later := range cs[i+1:] {
+							if within(later, d) {
+								guarded = true
+							}
+						}
+					}
+				}
+				return true
+			})
+			if !guarded {
+				all = false
+			}
+		}
+		_, endsInReturn := evArm.Body[len(evArm.Body)-1].(*ast.ReturnStmt)
+		closedCheck = all && endsInReturn
+	}
 	r.Check(closedCheck, "ExecuteSubscription.loop.closed-source", evArm.Pos(),
 		"a closed source ends the loop before anything is delivered", "the event arm must test the receive's ok flag first and return when the source is closed (otherwise nil events are delivered forever)")
 	ds := s.deliveries(evArm)
@@ -432,6 +501,25 @@ func c15Loop(c *core.Ctx, r *core.Reporter) {
 			}
 			return true
 		})
+		if !ends {
+			// the other spelling: `if … && deliver(…) { continue }` directly followed by `return`
+			for i, st := range evArm.Body {
+				iff, ok := st.(*ast.IfStmt)
+				if !ok || iff.Else != nil || i+1 >= len(evArm.Body) || len(iff.Body.List) != 1 {
+					continue
+				}
+				br, isBr := iff.Body.List[0].(*ast.BranchStmt)
+				_, nextRet := evArm.Body[i+1].(*ast.ReturnStmt)
+				if !isBr || br.Tok != token.CONTINUE || br.Label != nil || !nextRet {
+					continue
+				}
+				for _, cj := range conjuncts(iff.Cond) {
+					if de, ok := ds[0].(ast.Expr); ok && cj == de {
+						ends = true
+					}
+				}
+			}
+		}
 		r.Check(ends, "ExecuteSubscription.loop.cancelled-delivery", evArm.Pos(),
 			"a delivery refused because of cancellation ends the loop", "when the guarded send reports cancellation the loop must return (otherwise events are consumed and dropped)")
 	}
